@@ -149,3 +149,55 @@ Theorem ignore_release_result_refuted :
   store (convert false 0 (answer w_good) 1 (mkC 0 [] [])) = [(0, 0, [11])] /\
   epoch (convert false 0 (answer w_good) 1 (mkC 0 [] [])) = 1.
 Proof. split; reflexivity. Qed.
+
+(* ---------------------------------------------------------------- process slots (MAX_PROCESS_COUNT = 8)
+   started processes = idle + busy <= 8.  reserveProcess takes an idle process or starts one when fewer than 8 are
+   started, otherwise it waits.  Every conversion gives its slot back whatever happens: the answer was read completely
+   (released to the idle pool), or an error in the send loop / in the read loop after sending (killed). *)
+Record slots := mkS { s_idle : nat; s_busy : nat }.
+Definition MAXP : nat := 8.
+Definition started (s : slots) : nat := s_idle s + s_busy s.
+Definition can_reserve (s : slots) : Prop := (0 < s_idle s \/ started s < MAXP)%nat.
+
+Definition reserve (s : slots) : slots :=
+  match s_idle s with
+  | S i => mkS i (S (s_busy s))
+  | O => mkS O (S (s_busy s))
+  end.
+
+Inductive outcome := AnswerRead | ErrorWhileSending | ErrorWhileReading.
+
+(* leak = the seeded change C09-r8d-n1: an error in the read loop after sending neither releases nor kills the process *)
+Definition finish (leak : bool) (o : outcome) (s : slots) : slots :=
+  match o with
+  | AnswerRead => mkS (S (s_idle s)) (pred (s_busy s))
+  | ErrorWhileSending => mkS (s_idle s) (pred (s_busy s))
+  | ErrorWhileReading => if leak then s else mkS (s_idle s) (pred (s_busy s))
+  end.
+
+Definition conversion (leak : bool) (o : outcome) (s : slots) : slots := finish leak o (reserve s).
+
+(* every conversion, successful or failed at any phase, returns or kills its process *)
+Theorem conversion_returns_its_slot o s : can_reserve s -> (started s <= MAXP)%nat ->
+  s_busy (conversion false o s) = s_busy s /\ (started (conversion false o s) <= MAXP)%nat.
+Proof.
+  intros C L. unfold conversion, finish, reserve, can_reserve, started, MAXP in *.
+  destruct s as [i b]. cbn [s_idle s_busy] in *. destruct i as [|i]; destruct o; simpl; (split; [reflexivity|]); lia.
+Qed.
+
+(* so conversions that run one after the other never find the pool exhausted *)
+Theorem sequential_conversions_never_block l : forall s, s_busy s = O -> (started s <= MAXP)%nat ->
+  let s' := fold_left (fun st o => conversion false o st) l s in
+  s_busy s' = O /\ (started s' <= MAXP)%nat /\ can_reserve s'.
+Proof.
+  induction l as [|o l IH]; intros s B L; simpl.
+  - split; [exact B|split; [exact L|]]. unfold can_reserve, started, MAXP in *. rewrite B in *. destruct (s_idle s); lia.
+  - assert (can_reserve s) as C by (unfold can_reserve, started, MAXP in *; rewrite B in *; destruct (s_idle s); lia).
+    destruct (conversion_returns_its_slot o s C L) as (B' & L'). apply IH; [rewrite B'; exact B|exact L'].
+Qed.
+
+(* with the leak eight malformed answers use up all slots: nothing can be reserved any more (the converter job hangs) *)
+Theorem leaked_slots_exhaust_the_pool_refuted :
+  let s := fold_left (fun st o => conversion true o st) (repeat ErrorWhileReading 8) (mkS 0 0) in
+  s_busy s = 8%nat /\ s_idle s = O /\ ~ can_reserve s.
+Proof. simpl. split; [reflexivity|split; [reflexivity|]]. unfold can_reserve, started, MAXP. simpl. lia. Qed.
